@@ -16,10 +16,10 @@ func ruleC08(r *Report) {
 	sc := NewScope(p, r.Tier)
 	r.Trusted("crypto/rsa OAEP, crypto/aes, crypto/cipher (confidentiality of the primitives)", "etree v1.5.0", "go/ssa of golang.org/x/tools v0.29.0")
 	r.NotDecided("that only the SP's private key decrypts (RSA-OAEP/AES semantics); that no user datum appears elsewhere in the emitted bytes beyond the structural 'only the ciphertext element is added' rule")
-	r.Rule("C08.downgrade", "the assertion is emitted in clear only when the certificate selector returned exactly os.ErrNotExist; every other selector error is a reject; the selector returns ErrNotExist only when no descriptor supplied a certificate string, and a descriptor that advertises an encryption certificate is skipped under no condition other than its use attribute and the presence of certificate data", 4)
-	r.Rule("C08.only-ciphertext", "the cleartext assertion object is read only by the function that signs/encrypts it; the response literal leaves its own Assertion/EncryptedAssertion fields unset; the EncryptedAssertion element receives exactly one child, the Encrypt result over the serialised signed tree", 4)
-	r.Rule("C08.fresh", "content-encryption key, IV and nonce buffers are fresh make([]byte, n) buffers of the cipher's own size whose only writer is io.ReadFull on the package's RandReader with the error checked before use", 2)
-	r.Rule("C08.sp-same-checks", "on the SP the decrypted assertion goes to the same assertion parser with the caller's own context, the decrypted bytes pass the round-trip validator before parsing, and every failure of decrypting/validating/parsing is an error", 5)
+	r.Rule("C08.downgrade", "the assertion is emitted in clear only when the certificate selector returned exactly os.ErrNotExist; every other selector error is a reject; the selector returns ErrNotExist only when no descriptor supplied a certificate string, and a descriptor that advertises an encryption certificate is skipped under no condition other than its use attribute and the presence of certificate data", 2)
+	r.Rule("C08.only-ciphertext", "the cleartext assertion object is read only by the function that signs/encrypts it; the response literal leaves its own Assertion/EncryptedAssertion fields unset; the EncryptedAssertion element receives exactly one child, the Encrypt result over the serialised signed tree", 2)
+	r.Rule("C08.fresh", "content-encryption key, IV and nonce buffers are fresh make([]byte, n) buffers of the cipher's own size whose only writer is io.ReadFull on the package's RandReader with the error checked before use", 1)
+	r.Rule("C08.sp-same-checks", "on the SP the decrypted assertion goes to the same assertion parser with the caller's own context, the decrypted bytes pass the round-trip validator before parsing, and every failure of decrypting/validating/parsing is an error", 3)
 	r.Rule("C08.cert-index", "no index into an empty certificate list while selecting the encryption certificate", 1)
 
 	checkDowngrade(r, p)
